@@ -503,6 +503,17 @@ Definition agree_copy (ops : list aop) (obs : list oev) (cops : list aop) (cobs 
      | None => false
      end.
 
+(* runs observed in segments (a column pushed through DrillholesGroupTable is one observed step but one add_data per hole) *)
+Fixpoint check_segments (s : astate) (segs : list (list aop * snap)) : bool :=
+  match segs with
+  | [] => true
+  | (ops, sn) :: r => match run_all s ops with
+                      | Some s' => snap_ok s' sn && check_segments s' r
+                      | None => false
+                      end
+  end.
+Definition agree_segments (segs : list (list aop * snap)) : bool := check_segments init segs.
+
 (* the model's own run, for replay files *)
 Fixpoint arun (s : astate) (ops : list aop) : list ares :=
   match ops with
